@@ -154,8 +154,10 @@ func (c *cache) Del(key []byte) {
 func (c *cache) Stats() Stats {
 	simPoint("cache.Stats", &c.lock)
 	s := Stats{}
+	c.lock.Lock()
 	s.Count = len(c.items)
 	s.Size = int(c.size)
+	c.lock.Unlock()
 	s.Hit = int(atomic.LoadInt32(&c.hit))
 	s.Miss = int(atomic.LoadInt32(&c.miss))
 	return s
